@@ -17,7 +17,10 @@ template <class F> bool guard(const char* entry, F f) {
     Harness& H = *g_robust_harness;
     H.count_(std::string("entry.") + entry);
     try { f(); return true; }
-    catch (const jsoncons::assertion_error& e) { H.violation(std::string("robust/") + entry + "/internal-assertion/" + strip_numbers(e.what()), J().str("what", e.what()).str("input", g_robust_input.substr(0, 4000)).done()); }
+    catch (const jsoncons::assertion_error& e) {
+        // the assertion text names the call site; the family (csv, cbor, jsonpath, ...) keeps signatures stable across entry points that share it
+        std::string fam(entry); if (fam.rfind("witness.", 0) != 0) fam = fam.substr(0, fam.find('.'));
+        H.violation(std::string("robust/") + fam + "/internal-assertion/" + strip_numbers(e.what()), J().str("entry", entry).str("what", e.what()).str("input", g_robust_input.substr(0, 4000)).done()); }
     catch (const std::bad_alloc&) { H.violation(std::string("robust/") + entry + "/bad_alloc-on-bounded-input", J().str("input", g_robust_input.substr(0, 4000)).done()); }
     catch (const jsoncons::json_exception&) { H.count_(std::string("reported.") + entry); }
     catch (const std::exception& e) { H.violation(std::string("robust/") + entry + "/foreign-exception/" + current_exception_type(), J().str("what", e.what()).str("input", g_robust_input.substr(0, 4000)).done()); }
